@@ -421,9 +421,21 @@ func (d *FS) rename(oldpath, newpath string) error {
 	if !ok {
 		return &LinkError{Op: "rename", Old: oldpath, New: newpath, Err: syscall.ENOENT}
 	}
+	if mount(oldpath) != mount(newpath) {
+		// the temporary directory is a file system of its own (tmpfs, PrivateTmp), as on most hosts
+		return &LinkError{Op: "rename", Old: oldpath, New: newpath, Err: syscall.EXDEV}
+	}
 	delete(d.dir, oldpath)
 	d.dir[newpath] = ino
 	return nil
+}
+
+// mount names the simulated file system a path lives on: /tmp is separate from everything else.
+func mount(p string) string {
+	if p == "/tmp" || strings.HasPrefix(p, "/tmp/") {
+		return "tmp"
+	}
+	return "root"
 }
 
 func (d *FS) remove(name string) error {
